@@ -34,7 +34,7 @@ EXPLANATION = (
 )
 
 MANIFEST = {
-    "technique": "static analysis: canonical-term comparison of position algebra / offset map / closed forms with specification terms; reducer recurrences compared with their specification by exhaustive evaluation of the extracted terms on a complete finite grid; counterexample search for unknown ancestor tests over levels 0-3; sibling agreement between counters, serial walk and parallel preparation; memo-key dependence analysis (tables, attribute caches with their writers)",
+    "technique": "static analysis: canonical-term comparison of position algebra / offset map / closed forms with specification terms; reducer recurrences compared with their specification by exhaustive evaluation of the extracted terms on a complete finite grid; counterexample search for unknown ancestor tests over levels 0-3; sibling agreement between counters, serial walk and parallel preparation; memo-key dependence analysis (tables, attribute caches with their writers); keyed attribute caches: every field the caching method reads itself is part of the key",
     "text": "Decides the algebraic premises under which counts equal visits and ops + leaves = live for all filters and apexes (structural induction in DESIGN.md).",
     "note": "Trusted: Python integer arithmetic. Not decided: level bookkeeping of PyramidReductionIterator (_ensure_levels / pop) for arbitrary filter shapes.",
 }
